@@ -211,6 +211,10 @@ fn portable(p: &mut Program) {
                 if matches!(e.underlying, Some(Prim::Long) | Some(Prim::ULong)) {
                     e.underlying = Some(Prim::LongLong);
                 }
+                // plain char is unsigned on the ARM / RISC-V targets
+                if e.underlying == Some(Prim::Char) {
+                    e.underlying = Some(Prim::SChar);
+                }
             }
             _ => {}
         }
